@@ -174,7 +174,7 @@ def main(argv):
             engine_errors.append('%s item %s crashed: %s' % (g['gid'], json.dumps(e['item'])[:80], e['error']))
         for x in g['cross_fail']:
             engine_errors.append('%s item %s: engine/CPython disagreement: %s' % (g['gid'], json.dumps(x['item'])[:80], x['detail']))
-        if g['obligations'] == 0:
+        if g['obligations'] == 0 and not g['unsupported'] and not g['undecided'] and not g['budget']:
             engine_errors.append('%s generated no obligations (vacuous run)' % g['gid'])
         for x in g['budget']:
             undecided.append('%s item %s: %s' % (g['gid'], json.dumps(x['item'])[:80], x['detail']))
